@@ -338,6 +338,9 @@ GhostCall(gh, t, c, qm) ==
 (* Someone took id i out of the map: pending cancels/amends of i no longer face an
    untouched resting order. *)
 Touch(gh, i) == [gh EXCEPT !.resting = [t \in DOMAIN @ |-> IF gh.cid[t] = i THEN FALSE ELSE @[t]]]
+(* a removal by thread r excuses the not-found of every OTHER call on that id, never r's own: a call that
+   took its target out of the book itself has found it (S140: amend-to-zero cancels and then answers not-found) *)
+TouchBy(gh, r, i) == [gh EXCEPT !.resting = [t \in DOMAIN @ |-> IF gh.cid[t] = i /\ t # r THEN FALSE ELSE @[t]]]
 
 (* holder h has put id i back: every not-found given while it was out was wrong (D8) *)
 Reinserted(gh, h, i) ==
@@ -347,7 +350,7 @@ Reinserted(gh, h, i) ==
 GhostOp(gh, t, e) ==
   LET cls == gh.cop[t] IN
   CASE e.o = "map" /\ e.op = "remove" /\ IsOrder(e.r) /\ e.v \in Ids ->
-         LET g1 == Touch(gh, e.v)
+         LET g1 == TouchBy(gh, t, e.v)
              g2 == [g1 EXCEPT !.lastRm[t] = e.v, !.popped[t] = 0,
                               !.gone[e.v] = IF cls = "remove" THEN TRUE ELSE @,     \* the canceller owns it from here on
                               !.bad = IF gh.gone[e.v] THEN @ \cup {IF cls = "match" THEN "traded-after-cancel" ELSE "handed-out-twice"} ELSE @]
